@@ -406,6 +406,56 @@ def _check_montecarlo_integrate(case, t, S, si, stats):
         )
 
 
+def _check_integrate_against_sample(case, S, si, stats):
+    """Integrate(S, g, V) for the drawn sample S and every V between the sampled
+    variables and all of the tensor's inputs, against the definition computed
+    densely: sum over V of exp(S) * g, with S evaluated point by point."""
+    from collections import OrderedDict
+
+    import numpy as np
+
+    import funsor
+    from funsor.integrate import Integrate
+
+    from sim import oracle
+
+    sizes = dict(zip(case["names"], case["sizes"]))
+    gdata = 0.25 + 0.5 * np.arange(int(np.prod(case["sizes"]))).reshape(case["sizes"]) % 3.0
+    g = funsor.Tensor(gdata, OrderedDict((n, funsor.Bint[sizes[n]]) for n in case["names"]))
+    rest = [n for n in case["names"] if n not in case["sampled"]]
+    try:
+        axes, vals = oracle.denote(S)
+    except oracle.Declined:
+        stats["declined"] += 1
+        return
+    anames = [a[0] for a in axes]
+    with np.errstate(all="ignore"):
+        w = np.exp(np.asarray(vals, dtype=np.float64))
+    # g aligned to the axes of S (S has every input of the tensor plus the sample inputs)
+    gidx = tuple(slice(None) if n in sizes else None for n in anames)
+    gperm = [case["names"].index(n) for n in anames if n in sizes]
+    gal = np.asarray(gdata).transpose(gperm)[gidx]
+    for k in range(len(rest) + 1):
+        V = list(case["sampled"]) + rest[:k]
+        want = (w * gal).sum(axis=tuple(anames.index(n) for n in V))
+        keep = [n for n in anames if n not in V]
+        ref = funsor.Tensor(want, OrderedDict((n, funsor.Bint[dict((a[0], a[2]) for a in axes)[n]]) for n in keep))
+        rvars = frozenset(funsor.Variable(n, funsor.Bint[sizes[n]]) for n in V)
+        try:
+            got = funsor.reinterpret(Integrate(S, g, rvars))
+            msg = oracle.compare(ref, got, rtol=1e-6, atol=1e-9)
+        except (oracle.Declined, AssertionError, NotImplementedError, ValueError):
+            stats["declined"] += 1
+            continue
+        stats["identities"] += 1
+        stats["integrals_against_samples"] = stats.get("integrals_against_samples", 0) + 1
+        if msg is not None:
+            raise Violation(
+                "integrate-against-sample",
+                "Integrate(sample of %s, g, %s) differs from the sum over %s of exp(sample) * g computed point by point: %s" % (sorted(case["sampled"]), sorted(V), sorted(V), msg),
+            )
+
+
 def _mk_gaussian(case):
     from collections import OrderedDict
 
@@ -813,6 +863,23 @@ def _check_delta(case, stats):
     if msg is not None:
         raise Violation("delta-integrate", "Integrate(Delta, g, v) differs from exp(ld) * g(v=x): " + msg)
     stats["identities"] += 4
+    # (f7) subtraction with the Delta on the left: (Delta - g)(v = x) == ld - g(v = x), and reduced over v the same
+    if not intpoint:
+        try:
+            diff = d - gfun
+            lhs1 = diff(v=x)
+            lhs2 = diff.reduce(ops.logaddexp, "v")
+            rhs = ld - gfun(v=x)
+            if wsub:
+                lhs1, lhs2, rhs = lhs1(**wsub), lhs2(**wsub), rhs(**wsub)
+            rhs = funsor.reinterpret(rhs)
+            msg = oracle.compare(rhs, funsor.reinterpret(lhs1)) or oracle.compare(rhs, funsor.reinterpret(lhs2))
+        except (oracle.Declined, ValueError, NotImplementedError, AssertionError, TypeError):
+            stats["declined"] += 1
+            msg = None
+        if msg is not None:
+            raise Violation("delta-subtract", "(Delta - g) at the point / reduced over the Delta's variable differs from ld - g(v=x): " + msg)
+        stats["identities"] += 2
     # (f5), (f6): a joint Delta over two names, reduced / integrated over ONE of them: the other
     # name stays a point mass (value at its point, nothing elsewhere)
     if case.get("joint") and not intpoint and not vector:
@@ -954,6 +1021,7 @@ def _run_case(args):
             digest = oracle.digest(S)
             if mode != "edge":
                 _check_montecarlo_integrate(case, t, S, si, stats)
+                _check_integrate_against_sample(case, S, si, stats)
         elif case["kind"] == "gaussian":
             digest = _check_gaussian(case, stats, case["cid"] * 7 + 2)
         elif case["kind"] == "mixture":
@@ -1016,6 +1084,7 @@ def run_cases(payload):
             tot["montecarlo_integrals"] = tot.get("montecarlo_integrals", 0) + st.get("montecarlo_integrals", 0)
             tot["mixtures"] = tot.get("mixtures", 0) + st.get("mixtures", 0)
             tot["joint_deltas"] = tot.get("joint_deltas", 0) + st.get("joint_deltas", 0)
+            tot["integrals_against_samples"] = tot.get("integrals_against_samples", 0) + st.get("integrals_against_samples", 0)
             tot["reference_marginals"] = tot.get("reference_marginals", 0) + st.get("reference_marginals", 0)
             tot["reference_silent"] = tot.get("reference_silent", 0) + st.get("reference_silent", 0)
             for k, v in st["edge_draws"].items():
@@ -1157,6 +1226,7 @@ def summarize(jobs, results, tier):
         "montecarlo_integrate_consistency_checks": tot.get("montecarlo_integrals", 0),
         "gaussian_mixture_samples_checked": tot.get("mixtures", 0),
         "joint_delta_cases_checked": tot.get("joint_deltas", 0),
+        "integrals_against_samples_checked_densely": tot.get("integrals_against_samples", 0),
         "gaussian_sample_masses_compared_with_closed_form": tot.get("reference_marginals", 0),
         "gaussian_sample_masses_where_closed_form_is_silent": tot.get("reference_silent", 0),
         "sample_points_checked_in_support": tot.get("points_checked", 0),
